@@ -13,7 +13,10 @@ Import ListNotations.
 Require Import RV.Lib.PyStr RV.Model.ContentLine RV.Model.Vobj RV.Model.C14Spec RV.Model.Export RV.Model.Split.
 Require Import RV.Proofs.ExportProofs RV.Proofs.SplitProofs RV.Proofs.RegroupProofs RV.Proofs.UnfixedProofs.
 Require RV.Proofs.LinesProofs RV.Proofs.QpProofs RV.Proofs.TextProofs RV.Proofs.CleanupProofs RV.Proofs.TreeProofs RV.Proofs.C14Final
-        RV.Proofs.CanonProofs RV.Proofs.FixedPointProofs RV.Proofs.SplitCrlfProofs.
+        RV.Proofs.CanonProofs RV.Proofs.FixedPointProofs RV.Proofs.SplitCrlfProofs
+        RV.Proofs.CodecProofs RV.Proofs.Utf8Proofs.
+Require Import RV.Model.Codec.
+Require RV.Gen.C14EncSites.
 Open Scope N_scope.
 
 (* ---------------------------------------------------------------------------------------------------------------
@@ -288,3 +291,62 @@ Theorem C14_split_unfixed_refuted :
   map (fun g => List.length (g_tzs g)) (split up) = [1; 0]%nat.
 Proof. exact split_unfixed_drops_vtimezones. Qed.
 Print Assumptions C14_split_unfixed_refuted.
+
+(* ---------------------------------------------------------------------------------------------------------------
+   The storage codec ([encoding] stock).  The models above treat the stored file as TEXT; between the text and the
+   file there is an encode, and between the file and the text read back a decode, each at a site of
+   radicale/storage/multifilesystem that names its charset.  Gen/C14EncSites.v is the table of all such sites,
+   regenerated from the source on every run (tie T, fail-closed). *)
+(* every site that carries client text (item file written / hashed for the cache key / read; .Radicale.props) takes the
+   configured charset, and each of these roles exists *)
+Theorem C14_storage_sites_use_configured_charset : sites_ok C14EncSites.sites = true.
+Proof. exact CodecProofs.Gen_enc_sites_ok. Qed.
+Print Assumptions C14_storage_sites_use_configured_charset.
+
+(* encode with c, decode with c: the identity on every text c can hold; a text it cannot hold is refused (no file) *)
+Theorem C14_storage_same_charset_roundtrip : forall c text, codec_ok c ->
+  (forall b, file_bytes c text = Some b -> cold_text c c text = Some text /\ cache_valid c c text = true) /\
+  (file_bytes c text = None -> cold_text c c text = None).
+Proof. exact CodecProofs.same_charset_roundtrip. Qed.
+Print Assumptions C14_storage_same_charset_roundtrip.
+
+(* with ANY table that passes sites_ok -- in particular the regenerated one -- whatever the interpreter default and
+   whatever literal charsets mean: the file read cold gives the uploaded text back and the cache entry written at upload is
+   valid for it; an unencodable text is refused.  Hypothesis: the configured charset decodes what it encodes. *)
+Theorem C14_storage_codec_identity : forall l stock dflt fixed w h r text,
+  sites_ok l = true -> codec_ok stock ->
+  In w l -> s_role w = ItemWrite -> In h l -> s_role h = ItemHash -> In r l -> s_role r = ItemRead ->
+  let cw := resolve stock dflt fixed (s_enc w) in
+  let ch := resolve stock dflt fixed (s_enc h) in
+  let cr := resolve stock dflt fixed (s_enc r) in
+  (forall b, file_bytes cw text = Some b -> cold_text cw cr text = Some text /\ cache_valid cw ch text = true) /\
+  (enc stock text = None -> file_bytes cw text = None).
+Proof. exact CodecProofs.storage_codec_identity. Qed.
+Print Assumptions C14_storage_codec_identity.
+
+(* not vacuous: the real table has the three sites; UTF-8 and ISO-8859-1 satisfy codec_ok *)
+Theorem C14_storage_codec_nonvacuous :
+  ((exists w, In w C14EncSites.sites /\ s_role w = ItemWrite) /\ (exists h, In h C14EncSites.sites /\ s_role h = ItemHash) /\
+   (exists r, In r C14EncSites.sites /\ s_role r = ItemRead)) /\ codec_ok utf8 /\ codec_ok latin1.
+Proof. split; [exact CodecProofs.real_sites_present|]. split; [exact Utf8Proofs.utf8_ok | exact Utf8Proofs.latin1_ok]. Qed.
+Print Assumptions C14_storage_codec_nonvacuous.
+
+(* c <> c' is NOT the identity: a write site left to the interpreter default (UTF-8) under stock = ISO-8859-1 stores
+   "caf\u00e9" as 63 61 66 C3 A9, the cache entry never matches, and the text comes back as "caf\u00c3\u00a9"; the other
+   way round the file cannot be decoded at all.  Such a table fails sites_ok. *)
+Theorem C14_storage_mixed_charsets_refuted :
+  sites_ok CodecProofs.bad_sites = false /\
+  let cw := resolve latin1 utf8 (fun _ => utf8) EDefault in
+  let cs := resolve latin1 utf8 (fun _ => utf8) EStock in
+  file_bytes cw [99; 97; 102; 233] = Some [99; 97; 102; 195; 169] /\
+  cache_valid cw cs [99; 97; 102; 233] = false /\
+  cold_text cw cs [99; 97; 102; 233] = Some [99; 97; 102; 195; 169] /\
+  cold_text cs cw [99; 97; 102; 233] = None.
+Proof. exact CodecProofs.mixed_charsets_refuted. Qed.
+Print Assumptions C14_storage_mixed_charsets_refuted.
+
+(* what a cold read serves is the reload of the uploaded text (then C14_fixed_point / C14_served_after_cache_loss apply) *)
+Theorem C14_storage_cold_serve : forall c text b, codec_ok c -> file_bytes c text = Some b ->
+  match cold_text c c text with Some t => reload_model t | None => None end = reload_model text.
+Proof. exact CodecProofs.cold_serve_is_reload. Qed.
+Print Assumptions C14_storage_cold_serve.
